@@ -132,7 +132,7 @@ def globalKinds : List String :=
    "cbuf", "gv", "gs", "st"]
 def fnKinds : List String :=
   ["bload", "bload2", "rwbload", "rwbload2", "rwbstore", "rwbstoret", "baload", "rwbaload", "rwbastore", "rwbastoret"]
-def wraps : List String := ["m", "u", "t", "t0", "me", "p", "a"]
+def wraps : List String := ["m", "u", "t", "t0", "me", "p", "a", "gi", "da", "ex"]
 
 /-- what the type checker makes of a global declaration of the given kind (`none`: no entry in the global
     registry that matters) -/
@@ -167,8 +167,8 @@ def moduleOf (refs : List TyRef) (sites : List PSite) : Module :=
   let globals := indexed.filterMap fun (s, i) =>
     if s.wrap == "" then (globalOf s.kind (refOf s)).map fun g => ⟨g, "G" ++ toString i⟩ else none
   let fnOf (s : PSite) : Fn := ⟨some (intrinsicOf s.kind), some [.type (refOf s)]⟩
-  let early := sites.filter fun s => s.wrap == "u" || s.wrap == "p" || s.wrap == "me"
-  let late := sites.filter fun s => s.wrap == "m" || s.wrap == "a" || s.wrap == "t"
+  let early := sites.filter fun s => ["u", "p", "me", "gi", "da"].contains s.wrap
+  let late := sites.filter fun s => ["m", "a", "t", "ex"].contains s.wrap
   ⟨globals, (early ++ late).map fnOf⟩
 
 def showProgVerdict (entries : List Entry) : Verdict → String
@@ -190,7 +190,9 @@ def handleProg (head tys sites : String) : String :=
       match sequenceOpt (tyStrs.map parseType), sequenceOpt ((sites.splitOn ",").map parseSite) with
       | some ts, some ss =>
         if ss.any fun s => s.ty ≥ ts.length ||
-            !(if s.wrap == "" then globalKinds.contains s.kind else fnKinds.contains s.kind && wraps.contains s.wrap)
+            !(if s.wrap == "" then globalKinds.contains s.kind else fnKinds.contains s.kind && wraps.contains s.wrap) ||
+            ((s.wrap == "gi" || s.wrap == "da") && !["bload", "rwbload", "baload", "rwbaload"].contains s.kind) ||
+            (s.wrap == "ex" && !["bload", "bload2", "rwbload", "rwbload2", "baload", "rwbaload"].contains s.kind)
         then "bad-request"
         -- `void` only as the whole type argument of a typed load that is type checked
         else if tyStrs.zipIdx.any fun (str, k) =>
